@@ -298,6 +298,33 @@ def _r3(run, prog, ci):
                     run.ok('C17-R3', 'triangulation source', '%s = %s' % (a.id, norm(defs[0].value)), sample=False)
                 continue
         run.undecided('C17-R3', 'triangulation source', 'argument %s not traced to the stored vertices' % txt[:40])
+    # ... and nothing reorders the stored vertices afterwards (the winding normalisation reverses them in place)
+    pos = {}
+
+    def _num(n_, k_=[0]):
+        pos[id(n_)] = k_[0]
+        k_[0] += 1
+        for c_ in ast.iter_child_nodes(n_):
+            _num(c_)
+    _num(init)
+    for c in calls:
+        run.subject('C17-R3')
+        later = []
+        for st in ast.walk(init):
+            if isinstance(st, ast.Assign) and pos[id(st)] > pos[id(c)]:
+                for t in st.targets:
+                    b_ = t
+                    while isinstance(b_, ast.Subscript):
+                        b_ = b_.value
+                    if norm(b_) == 'self._vertices':
+                        later.append(st)
+        if later:
+            run.fail('C17-R3', K + 'vertices-reordered-after-triangulation', ci.mod.relpath, later[0].lineno,
+                     'the vertex array is written (%s) after the triangles were computed from it: for an anticlockwise polygon the triangle indices '
+                     'refer to the order before the reversal, so samples are drawn from triangles that are not part of the cross-section'
+                     % norm(later[0])[:60])
+        else:
+            run.ok('C17-R3', 'triangulation after the last write of the vertices', 'no later store into self._vertices', sample=False)
     from ._purity import returns_held_buffer
     for cq, c2 in sorted(prog.classes.items()):
         if c2.mod is not ci.mod:
@@ -399,6 +426,9 @@ def _r2(run, ci):
 
 
 MUTANTS = [
+    dict(name='triangulation-before-the-winding-normalisation', file=FILE,
+         find="        if not winding2d(self._vertices):\n            self._vertices[:] = self._vertices[::-1]\n\n        self._triangles = triangulate2d(self._vertices.base)\n",
+         replace="        self._triangles = triangulate2d(self._vertices.base)\n        if not winding2d(self._vertices):\n            self._vertices[:] = self._vertices[::-1]\n", expect='C17-R3'),
     dict(name='triangulation-of-the-unreversed-vertices', file=FILE,
          find="        if not winding2d(self._vertices):\n            self._vertices[:] = self._vertices[::-1]\n\n        self._triangles = triangulate2d(self._vertices.base)",
          replace="        coords = self._vertices.base\n        if not winding2d(self._vertices):\n            self._vertices = coords[::-1].copy()\n\n        self._triangles = triangulate2d(coords)", expect='C17-R3'),
